@@ -1150,10 +1150,24 @@ def _lookup_engine(prog, NT):
                     bb = strip_casts(n_["b"])
                     if bb.get("k") == "mem" and "zrng_s" in (bb.get("t") or ""):
                         cpath = lv(bb)
+        # the cache record read through a local pointer to it (`const struct zrng_s *const zc = &z->cache;`)
+        ptrs = {}
+        for b, i, x, line in cfg.all_elems():
+            for l, kind, nn in writes(x) if isinstance(x, dict) else ():
+                rhs = nn.get("init") if kind == "decl" else (nn.get("r") if nn.get("k") == "bin" and nn["op"] == "=" else None)
+                r_ = strip_casts(cfg.resolve(rhs)) if rhs is not None else {}
+                if r_.get("k") == "un" and r_.get("op") == "&" and strip_casts(r_["e"]).get("k") == "mem" and "zrng_s" in (strip_casts(r_["e"]).get("t") or ""):
+                    ptrs.setdefault(lv(l), set()).add(lv(strip_casts(r_["e"])))
+        ptrs = {k_: next(iter(v_)) for k_, v_ in ptrs.items() if len(v_) == 1}
+        if cpath is None and ptrs:
+            cpath = next(iter(ptrs.values()))
+        ptrs = {k_: v_ for k_, v_ in ptrs.items() if v_ == cpath}
         if cpath is None:
             raise AnalysisBroken("__offs: the range cache was not found")
         for f_, v in zip(FLD, cst):
             st["%s.%s" % (cpath, f_)] = v
+            for k_ in ptrs:
+                st["%s->%s" % (k_, f_)] = v
         ce = make_ce(g)
 
         def struct_of(e, store):
@@ -1191,7 +1205,7 @@ def _lookup_engine(prog, NT):
                 tl = strip_casts(l)
                 ty = tl.get("t") or (nn.get("t") if kind == "decl" else "") or ""
                 rhs = nn.get("init") if kind == "decl" else (nn.get("r") if nn.get("k") == "bin" and nn["op"] == "=" else None)
-                if "zrng_s" in ty and rhs is not None:
+                if "zrng_s" in ty and "*" not in ty and rhs is not None:
                     stt = dict(store)
                     stt.update({k_: v_ for k_, v_ in upd.items() if v_ is not None})
                     d = struct_of(rhs, stt)
@@ -1215,8 +1229,14 @@ def _lookup_engine(prog, NT):
                     if v is None:
                         raise _NoResult("__offs(%d): returned value `%s` unknown" % (t, show(e)[:40]))
                     upd["$ret"] = v
+            # what is read through a pointer to the cache is the cache as the completed stores have left it
+            for k_ in ptrs:
+                for f_ in FLD:
+                    key_ = "%s.%s" % (cpath, f_)
+                    upd["%s->%s" % (k_, f_)] = upd[key_] if upd.get(key_) is not None else store.get(key_)
             return upd
-        tracked = {l_["n"] for l_ in g.locals} | {p_["n"] for p_ in g.params[1:]} | {"%s.%s" % (cpath, f_) for f_ in FLD}
+        tracked = {l_["n"] for l_ in g.locals} | {p_["n"] for p_ in g.params[1:]} | {"%s.%s" % (cpath, f_) for f_ in FLD} | \
+            {"%s->%s" % (k_, f_) for k_ in ptrs for f_ in FLD}
         for l_ in g.locals:
             if "zrng_s" in (l_.get("t") or ""):
                 tracked |= {"%s.%s" % (l_["n"], f_) for f_ in FLD}
